@@ -73,7 +73,7 @@ def check(patch, props):
                 if 'VIOLATION' in out:
                     fired[p] = re.findall(r'\s+(?:RULE|UNDECIDED|ANCHOR|FLOOR|CANARY) (\S+) at', out)
     finally:
-        sh('git -C /repo checkout -q -- .', '/verif')
+        sh('git -C /repo checkout -q -- . && git -C /repo clean -fdq', '/verif')
     return fired
 
 if __name__ == '__main__':
